@@ -22,12 +22,20 @@ Tie to /repo:
   (L) round 4, leaf streams: the norm-type leaves NormOperator, DistOperator, L2Norm (functional, through
       Functional.derivative = gradient(x).T), ComplexModulus, PointwiseNorm (exponent 2) are executed by the
       driver at Float (Model/DerivLeaves.lean, op `leaf`) and compared with the real code: value, the
-      vector held by the returned operator and derivative(x)(d), BIT FOR BIT on dyadic grids, on
-      power-of-two-norm points and (element-wise classes) on random doubles; rel. 1e-13 only where a BLAS
-      dot product of non-dyadic data intervenes.  Strata at the non-differentiable points (raise /
+      vector held by the returned operator and derivative(x)(d), BIT FOR BIT for the element-wise classes
+      (ComplexModulus, PointwiseNorm; also on random doubles) and on the power-of-two-norm stratum of the
+      norm-type functionals; rel. 1e-13 where BLAS (nrm2 / dot) intervenes.  Strata at the non-differentiable points (raise /
       zero functional / undivided zero component / 0/0).  Stream `leafcomp`: OperatorComp(leaf, random
       exact tree) against Model/DerivLeafComp.lean (tree at Rat, leaf at Float), incl. the inner value
       hitting the outer operator's non-differentiable point.
+  (R5) round 5: stream `lin` — PointwiseInner / PointwiseSum (linear: derivative = self) against
+      Model/DerivLin.lean at Float, bit for bit.  Zoo entries for every class / call form of the anchored
+      files that docs/covmap/C06.md listed as never entered and that the property covers (LinCombOperator,
+      SamplingOperator, WeightedSumSamplingOperator, FlatteningOperator (+ inverse), ComponentProjection
+      (+ adjoint), PointwiseInnerAdjoint, PointwiseNorm with exponent inf, operator sugar **, /, unary +,
+      v + op, v - op, f - g, sub-operator access [i] / [i, j], simple_functional).  OUT-FORM clause of the
+      oracle (every object the oracle sees): op(x, out=fresh) and derivative(x)(d, out=fresh) must return
+      `out` holding the value of the out-of-place call (the in-place `_call` branches).
 Oracle (independent of the model, on the real code): central differences at h = 2^-k,
 k = 4..14: component-wise agreement with the Richardson-extrapolated estimate (rel. 1e-7) and
 decay of the plain central-difference error like h^2; derivative(x).is_linear,
@@ -96,7 +104,8 @@ ASSUMPTIONS = ['model world: spaces rn(n) and (nested) product spaces of them, f
                'Rat), compared bit for bit where NumPy fixes the order of operations (streams leaf, leafcomp); '
                'the theorems read the same definitions at R with Real.sqrt; Float rounding is outside the '
                'theorems; PointwiseNorm with exponent != 2, weights or one component, and these leaves under '
-               'other combinators than OperatorComp(leaf, tree) stay oracle-only',
+               'other combinators than OperatorComp(leaf, tree) stay oracle-only; PointwiseInner / PointwiseSum '
+               '(unweighted) are executed (Model/DerivLin.lean, stream lin)',
                'operator classes without an executable model (ufunc operators (their derivative TABLE is '
                'extracted and proved; values are not executed in the model), finite differences, '
                'ResizingOperator, functionals other than L2NormSquared/InnerProduct/L2Norm) are checked by '
@@ -766,11 +775,21 @@ def cd_check(op, x, d, Dd, tol=1e-7, ks=range(4, 15), rate=True, vfloor=1.0):
                     float(comp_tol[c]), np.array2string(Dd[:6], precision=8),
                     np.array2string(R[:6], precision=8)))
     # decay: in the regime above the noise floor the error must shrink ~ h^2
-    elig = []
-    for q in range(len(errs) - 1):
-        noise = 1e-15 * vscale * 2.0 ** ks[q + 1] + 1e-14 * scale
-        if errs[q + 1] > 1e4 * noise and errs[q] < 0.05 * scale:
-            elig.append(errs[q] / errs[q + 1])
+    def _eligible(margin):
+        out = []
+        for q in range(len(errs) - 1):
+            noise = 1e-15 * vscale * 2.0 ** ks[q + 1] + 1e-14 * scale
+            if errs[q + 1] > margin * noise and errs[q] < 0.05 * scale:
+                out.append(errs[q] / errs[q + 1])
+        return out
+    elig = _eligible(1e4)
+    if len(elig) < 2:
+        # one ratio is not a trend (a pre-asymptotic sign change between the h^2 and h^4 terms gave a
+        # lone 1.65 in round 5 although the finer ratios were 3.5, 3.9, 4.0): use the ratios down to
+        # 10^3 x the noise floor as well (still reliable to ~0.1 %) before judging the tail
+        more = _eligible(1e3)
+        if len(more) > len(elig):
+            elig = more
     if rate and elig:
         slow = [r for r in elig if r < 1.5]
         tail = elig[-2:]
@@ -996,6 +1015,29 @@ def magnitude_check(op, x, d, e, tol):
 NOT_PROVIDED = ['<no derivative provided: NotImplementedError>']
 
 
+def out_form_check(op, x, y, what):
+    """The in-place calling form: op(x, out=<fresh element of the range>) must return that element holding
+    the value of op(x) (the `_call(x, out)` branches of the real code, which the out-of-place form never
+    enters).  None if fine / not applicable (field ranges have no in-place form)."""
+    if is_field(op.range) or not hasattr(op.range, 'element'):
+        return None
+    try:
+        with np.errstate(all='ignore'):
+            out = op.range.element()
+            r = op(x, out=out)
+    except Exception as e:  # noqa
+        return '{}(., out=...) raised {}: {}'.format(what, type(e).__name__, str(e)[:160])
+    _hist('oracle/out-form/' + what)
+    if r is not out:
+        return '{}(., out=out) returned another object than out'.format(what)
+    a, b = flat(out), flat(y)
+    if a.shape != b.shape or not np.allclose(a, b, rtol=1e-12, atol=1e-12 * (float(np.max(np.abs(b))) if b.size else 0.0),
+                                             equal_nan=True):
+        return '{}(., out=out) wrote {} but the out-of-place call gives {}'.format(
+            what, np.array2string(a[:6], precision=10), np.array2string(b[:6], precision=10))
+    return None
+
+
 def oracle_on(op, x, d, exact_linear=True, tol=1e-7, rate=True, allow_notimpl=False, history=True,
               vfloor=1.0):
     """All oracle checks of the property for one operator / base point / direction.
@@ -1008,6 +1050,15 @@ def oracle_on(op, x, d, exact_linear=True, tol=1e-7, rate=True, allow_notimpl=Fa
         D = op.derivative(x)
     except NotImplementedError as e:
         if allow_notimpl:
+            # no derivative provided (documented): the operator itself must still evaluate, in both
+            # calling forms (reaches e.g. PointwiseNorm._call_vecfield_inf)
+            try:
+                with np.errstate(all='ignore'):
+                    msg = out_form_check(op, x, op(x), 'op')
+            except Exception as e2:  # noqa
+                msg = 'op(x) raised {}: {}'.format(type(e2).__name__, str(e2)[:160])
+            if msg:
+                problems.append(msg)
             return (problems if problems else NOT_PROVIDED), None, None
         return problems + ['derivative(x) raised {}: {}'.format(type(e).__name__, str(e)[:200])], None, None
     except Exception as e:  # noqa
@@ -1043,6 +1094,9 @@ def oracle_on(op, x, d, exact_linear=True, tol=1e-7, rate=True, allow_notimpl=Fa
             msg = cd_check(op, x, d, Dd, tol=tol, rate=rate, vfloor=vfloor)
         if msg:
             problems.append(msg)
+        for msg in (out_form_check(D, d, Dd, 'derivative(x)'), out_form_check(op, x, op(x), 'op')):
+            if msg:
+                problems.append(msg)
         if history and not problems:
             problems.extend(history_check(op, x, d, Dd, tol))
     except Exception as e:  # noqa
@@ -2032,6 +2086,97 @@ def zoo(ctx):
     add('NumericalGradient (numerical estimate by design)', ['NumericalGradient'],
         lambda: (S.NumericalGradient(S.L2NormSquared(r3) * pow3), el(r3, _gen(rng, 3, 0.5, 1.5)),
                  el(r3, _gen(rng, 3))), tol=2e-2, rate=False)
+    # --- round 5: classes / call forms of the anchored files no stream entered (docs/covmap/C06.md):
+    # linear built-ins inheriting Operator.derivative (own derivative), alone and under a nonlinear
+    # outer operator; operator sugar building the expression classes; sub-operator access
+    d23 = odl.uniform_discr([0, 0], [1, 1], (2, 3))
+    d4 = odl.uniform_discr(0, 1, 4)
+    r6 = odl.rn(6)
+    p33 = odl.ProductSpace(r3, 2)
+    p333 = odl.ProductSpace(r3, 3)
+    p33w = odl.ProductSpace(r3, 2, weighting=[2.0, 0.5])
+
+    def e23():
+        return d23.element(np.array(_gen(rng, 6)).reshape(2, 3))
+
+    def ep(sp):
+        return sp.element([_gen(rng, 3) for _ in range(len(sp))])
+
+    lin = dict(once=True, nomag=True)
+    add('LinCombOperator(r3, a, b)', ['LinCombOperator'],
+        lambda: (odl.LinCombOperator(r3, 2.5, -1.5), ep(p33), ep(p33)), **lin)
+    add('sin o LinCombOperator', ['LinCombOperator under OperatorComp'],
+        lambda: (sin3 * odl.LinCombOperator(r3, rng.choice([2.5, -0.5]), -1.5), ep(p33), ep(p33)), once=True)
+    add('SamplingOperator point_eval (index arrays)', ['SamplingOperator'],
+        lambda: (odl.SamplingOperator(d23, [[0, 1, 1], [0, 2, 1]]), e23(), e23()), **lin)
+    add('SamplingOperator integrate', ['SamplingOperator(integrate)'],
+        lambda: (odl.SamplingOperator(d23, [[0, 1], [2, 1]], variant='integrate'), e23(), e23()), **lin)
+    add('exp o SamplingOperator (flat indices, 1d)', ['SamplingOperator under OperatorComp'],
+        lambda: (uo.exp(r2) * odl.SamplingOperator(d4, [1, 3]), d4.element(_gen(rng, 4, 0.1, 1)),
+                 d4.element(_gen(rng, 4))), once=True)
+    add('WeightedSumSamplingOperator char_fun', ['WeightedSumSamplingOperator'],
+        lambda: (odl.WeightedSumSamplingOperator(d23, [[0, 1, 1], [0, 2, 2]]), el(r3, _gen(rng, 3)),
+                 el(r3, _gen(rng, 3))), **lin)
+    add('WeightedSumSamplingOperator dirac', ['WeightedSumSamplingOperator(dirac)'],
+        lambda: (odl.WeightedSumSamplingOperator(d23, [[0, 1, 1], [0, 2, 2]], variant='dirac'),
+                 el(r3, _gen(rng, 3)), el(r3, _gen(rng, 3))), **lin)
+    add('FlatteningOperator order C', ['FlatteningOperator'],
+        lambda: (odl.FlatteningOperator(d23), e23(), e23()), **lin)
+    add('sin o FlatteningOperator order F', ['FlatteningOperator under OperatorComp'],
+        lambda: (uo.sin(r6) * odl.FlatteningOperator(d23, order='F'), e23(), e23()), once=True)
+    add('FlatteningOperator.inverse', ['FlatteningOperatorInverse'],
+        lambda: (odl.FlatteningOperator(d23).inverse, r6.element(_gen(rng, 6)), r6.element(_gen(rng, 6))), **lin)
+    add('ComponentProjection(int)', ['ComponentProjection'],
+        lambda: (odl.ComponentProjection(p33, 1), ep(p33), ep(p33)), **lin)
+    add('ComponentProjection(list)', ['ComponentProjection(list)'],
+        lambda: (odl.ComponentProjection(p333, [0, 2]), ep(p333), ep(p333)), **lin)
+    add('exp o ComponentProjection', ['ComponentProjection under OperatorComp'],
+        lambda: (exp3 * odl.ComponentProjection(p33, 0), p33.element([_gen(rng, 3, 0.1, 1), _gen(rng, 3)]),
+                 ep(p33)), once=True)
+    add('ComponentProjectionAdjoint', ['ComponentProjectionAdjoint'],
+        lambda: (odl.ComponentProjectionAdjoint(p33, 0), el(r3, _gen(rng, 3)), el(r3, _gen(rng, 3))), **lin)
+    add('ComponentProjection(weighted pspace).adjoint', ['ComponentProjection.adjoint weighted'],
+        lambda: (odl.ComponentProjection(p33w, 1).adjoint, el(r3, _gen(rng, 3)), el(r3, _gen(rng, 3))), **lin)
+    add('PointwiseInner(weighted).adjoint = PointwiseInnerAdjoint', ['PointwiseInnerAdjoint'],
+        lambda: (odl.PointwiseInner(p33w, ep(p33w)).adjoint, el(r3, _gen(rng, 3)), el(r3, _gen(rng, 3))), **lin)
+    add('PointwiseNorm exponent=inf (derivative not provided)', ['PointwiseNorm(exponent=inf)'],
+        lambda: (odl.PointwiseNorm(p33, exponent=float('inf')), ep(p33), ep(p33)), allow_notimpl=True, **lin)
+    add('PointwiseNorm exponent=inf weighted', ['PointwiseNorm(exponent=inf, weighted)'],
+        lambda: (odl.PointwiseNorm(p33, exponent=float('inf'), weighting=[2.0, 0.5]), ep(p33), ep(p33)),
+        allow_notimpl=True, **lin)
+    add('sugar: sin ** 3 (Operator.__pow__)', ['sugar:__pow__'],
+        lambda: (sin3 ** 3, el(r3, _gen(rng, 3)), el(r3, _gen(rng, 3))), once=True)
+    add('sugar: A ** 2 (linear)', ['sugar:__pow__ linear'],
+        lambda: (A ** 2, el(r3, _gen(rng, 3)), el(r3, _gen(rng, 3))), **lin)
+    add('sugar: exp / s (Operator.__truediv__)', ['sugar:__truediv__'],
+        lambda: (exp3 / rng.choice([2.0, -0.5]), el(r3, _gen(rng, 3, 0.1, 1)), el(r3, _gen(rng, 3))), once=True)
+    add('sugar: +sin (Operator.__pos__)', ['sugar:__pos__'],
+        lambda: (+sin3, el(r3, _gen(rng, 3)), el(r3, _gen(rng, 3))), **lin)
+    add('sugar: v + sin (Operator.__radd__)', ['sugar:__radd__'],
+        lambda: (el(r3, _gen(rng, 3)) + sin3, el(r3, _gen(rng, 3)), el(r3, _gen(rng, 3))), once=True)
+    add('sugar: v - exp (Operator.__rsub__)', ['sugar:__rsub__'],
+        lambda: (el(r3, _gen(rng, 3)) - exp3, el(r3, _gen(rng, 3, 0.1, 1)), el(r3, _gen(rng, 3))), once=True)
+    add('sugar: s - f, f - g (Functional.__sub__)', ['sugar:Functional.__sub__'],
+        lambda: (2.0 - (S.L2NormSquared(r3) - S.L2Norm(r3)), el(r3, _gen(rng, 3)), el(r3, _gen(rng, 3))),
+        once=True)
+    add('BroadcastOperator[i]', ['getitem:BroadcastOperator'],
+        lambda: (odl.BroadcastOperator(sin3, exp3)[1], el(r3, _gen(rng, 3, 0.1, 1)), el(r3, _gen(rng, 3))), **lin)
+    add('ReductionOperator[i]', ['getitem:ReductionOperator'],
+        lambda: (odl.ReductionOperator(sin3, exp3)[0], el(r3, _gen(rng, 3)), el(r3, _gen(rng, 3))), **lin)
+    add('DiagonalOperator[i]', ['getitem:DiagonalOperator'],
+        lambda: (odl.DiagonalOperator(sin3, pow3)[1], el(r3, _gen(rng, 3)), el(r3, _gen(rng, 3))), **lin)
+    add('ProductSpaceOperator[i, j]', ['getitem:ProductSpaceOperator[i,j]'],
+        lambda: (odl.ProductSpaceOperator([[None, sin3], [exp3, None]])[0, 1], el(r3, _gen(rng, 3)),
+                 el(r3, _gen(rng, 3))), **lin)
+    add('ProductSpaceOperator[i] (row as ReductionOperator)', ['getitem:ProductSpaceOperator[i]'],
+        lambda: (odl.ProductSpaceOperator([[None, sin3], [exp3, None]])[1],
+                 p33.element([_gen(rng, 3, 0.1, 1), _gen(rng, 3)]), ep(p33)), once=True)
+    add('simple_functional(fcall, grad)', ['SimpleFunctional'],
+        lambda: (S.functional.simple_functional(
+            r3, fcall=lambda x: float(np.sum(np.sin(x.asarray()))), grad=lambda x: x.ufuncs.cos()),
+            el(r3, _gen(rng, 3)), el(r3, _gen(rng, 3))), once=True)
+    add('ScalingOperator.inverse', ['ScalingOperator.inverse'],
+        lambda: (odl.ScalingOperator(r3, 2.5).inverse, el(r3, _gen(rng, 3)), el(r3, _gen(rng, 3))), **lin)
     return Z
 
 
@@ -2462,10 +2607,15 @@ def compare_leaf(ctx, c, impl, ans):
     f = dict(tok.split('=', 1) for tok in ans.split()[1:])
     elementwise = t in ('cmod', 'pwnorm')
     dyadic = st != 'float'
+    # (x.norm() is BLAS nrm2 for every contiguous double array — extended-precision accumulation, a rare
+    # 1-ulp difference to sqrt(dot) was seen in round 5 — so outside the power-of-two-norm stratum, where
+    # the root is exact in any precision, the norm-type values are compared to rel. 1e-13)
+    exact_norm = st in ('pow2norm', 'singular')
+    del dyadic
     mode = {'dom': 0, 'ran': 0, 'ddom': 0, 'dran': 0,
-            'val': 0 if (elementwise or dyadic) else 1e-13,
-            'dvec': 0 if (elementwise or dyadic) else 1e-13,
-            'dval': 0 if (elementwise or st in ('pow2norm', 'singular')) else 1e-13}
+            'val': 0 if (elementwise or exact_norm) else 1e-13,
+            'dvec': 0 if (elementwise or exact_norm) else 1e-13,
+            'dval': 0 if (elementwise or exact_norm) else 1e-13}
     for key in ('dom', 'ran', 'val', 'ddom', 'dran', 'dvec', 'dval'):
         a, b = str(impl[key]), f.get(key, '?')
         if a == b:
@@ -2601,7 +2751,20 @@ def run_leafcomp_case(c):
         singular = bool(np.any(val == 0))
     info.update({'singular': singular, 'inner_linear': bool(tree.is_linear),
                  'small': bool(inner.size == 0 or float(np.max(np.abs(inner))) < 2.0 ** 25)})
+    info['resolvable'] = True
     if not singular:
+        # the stencil must resolve the operator (as in run_fun_case / magnitude_check): an inner component
+        # that vanishes at x with a slope of 2^16 puts a near-kink of the norm at h ~ 2^-15 (round 5)
+        try:
+            with np.errstate(all='ignore'):
+                c12 = (flat(op(x + 2.0 ** -12 * d)) - flat(op(x - 2.0 ** -12 * d))) * 2.0 ** 11
+                c14 = (flat(op(x + 2.0 ** -14 * d)) - flat(op(x - 2.0 ** -14 * d))) * 2.0 ** 13
+            info['resolvable'] = bool(
+                np.all(np.isfinite(c12)) and np.all(np.isfinite(c14)) and not np.any(
+                    np.abs(c12 - c14) > 1e-5 * np.maximum(np.abs(c12), np.abs(c14)) + 1e-9 * np.abs(val)))
+        except Exception:  # noqa
+            info['resolvable'] = False
+    if not singular and info['resolvable']:
         with np.errstate(all='ignore'):
             pr, _, _ = oracle_on(op, x, d, exact_linear=False,
                                  history=(not QUICK[0]) and _history_applicable(op, x))
@@ -2650,7 +2813,7 @@ def compare_leafcomp(ctx, c, impl, ans, info):
             return
         keys = ('dom', 'ran', 'val', 'dval')
     elementwise = t in ('cmod', 'pwnorm')
-    mode = {'dom': 0, 'ran': 0, 'val': 0 if (elementwise or info['small']) else 1e-13,
+    mode = {'dom': 0, 'ran': 0, 'val': 0 if elementwise else 1e-13,      # norm(): BLAS nrm2, see compare_leaf
             'dval': 0 if elementwise else 1e-13}
     for key in keys:
         a, b = str(impl[key]), f.get(key, '?')
@@ -2683,6 +2846,8 @@ def leafcomp_stream(ctx, n_cases):
                          'x': c['x'], 'd': c['d'], 'model_answer': ans[:160]}
                  if nontrivial and len(ks) <= 4 and not info['inner_linear'] else None)
         ctx.hit('leafcomp/{}/{}'.format(t, 'inner-value-singular' if info['singular'] else 'regular'))
+        if not info.get('resolvable', True):
+            ctx.hit('leafcomp/oracle-skipped/not-resolvable-by-the-stencil')
         if info['inner_linear'] is not None:
             ctx.hit('leafcomp/{}/inner-{}'.format(t, 'linear' if info['inner_linear'] else 'nonlinear'))
         if not isinstance(impl, str) and impl.get('raised'):
@@ -2695,6 +2860,87 @@ def leafcomp_stream(ctx, n_cases):
 LEAFCOMP_BRANCHES = ['leafcomp/{}/{}'.format(t, b) for t in ['norm', 'dist', 'cmod', 'pwnorm']
                      for b in ['regular', 'inner-value-singular', 'inner-linear', 'inner-nonlinear']] + [
     'leafcomp/norm/outer-derivative-raises', 'leafcomp/dist/outer-derivative-raises']
+
+
+# ---------------------------------------------------------------------------
+# lin stream (round 5): PointwiseInner / PointwiseSum (linear, own derivative) — Model/DerivLin.lean at
+# Float, bit for bit (element-wise arithmetic); oracle: linear-operator clause + central differences
+
+def gen_lin_case(rng):
+    t = rng.choice(['pwinner', 'pwinner', 'pwsum'])
+    m, n = rng.choice([1, 2, 2, 3, 4]), rng.choice([1, 2, 3])
+    N = m * n
+    st = rng.choice(['grid', 'float'])
+    mk = (lambda k: _grid(rng, k)) if st == 'grid' else (lambda k: [rng.uniform(-3, 3) for _ in range(k)])
+    c = {'kind': 'lin', 't': t, 'm': m, 'n': n, 'stratum': st, 'x': mk(N), 'd': mk(N)}
+    if t == 'pwinner':
+        c['g'] = mk(N)
+        c['spelling'] = rng.choice(['element', 'nested-list'])
+    return c
+
+
+def run_lin_case(c):
+    import odl
+    m, n, t = c['m'], c['n'], c['t']
+    tok = 'pwinner|{}|{}|{}'.format(m, n, fl(c['g'])) if t == 'pwinner' else 'pwsum|{}|{}'.format(m, n)
+    line = 'lin t={} x={} d={}'.format(tok, fl(c['x']), fl(c['d']))
+    S = tuple([n] * m)
+    try:
+        sp = mk_space(S)
+        if t == 'pwinner':
+            g = elem(S, c['g'])
+            if c.get('spelling') == 'nested-list':
+                g = [c['g'][i * n:(i + 1) * n] for i in range(m)]
+            op = odl.PointwiseInner(sp, g)
+        else:
+            op = odl.PointwiseSum(sp)
+        x, d = elem(S, c['x']), elem(S, c['d'])
+    except Exception as e:  # noqa
+        return line, 'err:construct {}: {}'.format(type(e).__name__, str(e)[:160]), \
+            ['constructor raised {}: {}'.format(type(e).__name__, str(e)[:200])]
+    with np.errstate(all='ignore'):
+        problems, D, Dd = oracle_on(op, x, d, exact_linear=True, history=not QUICK[0])
+    problems = list(problems)
+    if not op.is_linear:
+        problems.append('{} is not flagged linear'.format(type(op).__name__))
+    try:
+        impl = {'dom': space_dim(op.domain), 'ran': space_dim(op.range), 'val': _ftoks(flat(op(x)).tolist()),
+                'dval': _ftoks(flat(Dd).tolist()) if Dd is not None else '?'}
+    except Exception as e:  # noqa
+        return line, 'err:call {}: {}'.format(type(e).__name__, str(e)[:160]), \
+            problems + ['op(x) raised {}'.format(type(e).__name__)]
+    return line, impl, problems
+
+
+def lin_stream(ctx, n_cases):
+    rng = ctx.rng
+    batch, lines = [], []
+    for _ in range(n_cases):
+        c = gen_lin_case(rng)
+        line, impl, problems = run_lin_case(c)
+        batch.append((c, impl, problems))
+        lines.append(line)
+    outs = core.run_driver('C06', lines)
+    for (c, impl, problems), ans in zip(batch, outs):
+        nontrivial = not isinstance(impl, str) and any(tok != '0' for tok in impl['dval'].split(','))
+        ctx.case(('lin', c['t'], c['m'], c['n'], c['stratum']) if nontrivial else None)
+        ctx.hit('lin/{}/{}'.format(c['t'], c['stratum']))
+        ctx.hit('lin/{}/components={}'.format(c['t'], 'one' if c['m'] == 1 else 'several'))
+        if problems:
+            ctx.violation('lin {} stratum={}'.format('PointwiseInner' if c['t'] == 'pwinner' else 'PointwiseSum',
+                                                     c['stratum']), '; '.join(problems)[:700], c)
+        if isinstance(impl, str) or not ans.startswith('ok '):
+            ctx.disagree(c, impl if isinstance(impl, str) else 'ok', ans[:300], stream='lin')
+            continue
+        f = dict(tok.split('=', 1) for tok in ans.split()[1:])
+        for key in ('dom', 'ran', 'val', 'dval'):
+            if str(impl[key]) != f.get(key):
+                ctx.disagree(c, '{}={}'.format(key, impl[key]), '{}={}'.format(key, f.get(key)), stream='lin')
+                break
+
+
+LIN_BRANCHES = ['lin/{}/{}'.format(t, b) for t in ['pwinner', 'pwsum']
+                for b in ['grid', 'float', 'components=one', 'components=several']]
 
 
 def regenerate(ctx):
@@ -2739,14 +2985,15 @@ def run(ctx):
             ctx.violation(tree_key(c['spec']) + ' tmp_ran={} tmp_dom={}'.format(
                 c['spec']['tr'], c['spec']['td']), '; '.join(problems)[:700], c)
         compare_tree(ctx, c, impl, ans)
-    table_stream(ctx, 2 if quick else 12)
-    malformed_stream(ctx, 150 if quick else 1500)
-    exact_stream(ctx, 1500 if quick else 20000)
-    mixed_stream(ctx, 300 if quick else 4000)
-    functional_stream(ctx, 320 if quick else 3000)
-    leaf_stream(ctx, 300 if quick else 6000)
-    leafcomp_stream(ctx, 200 if quick else 5000)
-    zoo_stream(ctx, 3 if quick else 25)
+    table_stream(ctx, 2 if quick else 10)
+    malformed_stream(ctx, 150 if quick else 1200)
+    exact_stream(ctx, 1400 if quick else 11000)
+    mixed_stream(ctx, 280 if quick else 2500)
+    functional_stream(ctx, 300 if quick else 2000)
+    leaf_stream(ctx, 300 if quick else 4000)
+    leafcomp_stream(ctx, 200 if quick else 3000)
+    lin_stream(ctx, 120 if quick else 1500)
+    zoo_stream(ctx, 3 if quick else 15)
     try:
         exceptional_points(ctx)
     except Exception as e:  # noqa
@@ -2757,10 +3004,22 @@ def run(ctx):
         ctx.hit(key, cnt)
     ctx.extra['observations'] = {k: v for k, v in sorted(HIST.items()) if k.startswith('observation/')}
     if not quick:
-        unhit = [b for b in EXPECTED_BRANCHES + LEAF_BRANCHES + LEAFCOMP_BRANCHES if b not in ctx.branches]
+        unhit = [b for b in EXPECTED_BRANCHES + LEAF_BRANCHES + LEAFCOMP_BRANCHES + LIN_BRANCHES if b not in ctx.branches]
         ctx.extra['unhit_model_branches'] = unhit
         if unhit:
             ctx.disagree({'kind': 'coverage'}, 'branches never generated', unhit, stream='coverage')
+
+
+ROUND5_ZOO = ['LinCombOperator', 'LinCombOperator under OperatorComp', 'SamplingOperator', 'SamplingOperator(integrate)',
+              'SamplingOperator under OperatorComp', 'WeightedSumSamplingOperator', 'WeightedSumSamplingOperator(dirac)',
+              'FlatteningOperator', 'FlatteningOperator under OperatorComp', 'FlatteningOperatorInverse',
+              'ComponentProjection', 'ComponentProjection(list)', 'ComponentProjection under OperatorComp',
+              'ComponentProjectionAdjoint', 'ComponentProjection.adjoint weighted', 'PointwiseInnerAdjoint',
+              'PointwiseNorm(exponent=inf)', 'PointwiseNorm(exponent=inf, weighted)', 'sugar:__pow__',
+              'sugar:__pow__ linear', 'sugar:__truediv__', 'sugar:__pos__', 'sugar:__radd__', 'sugar:__rsub__',
+              'sugar:Functional.__sub__', 'getitem:BroadcastOperator', 'getitem:ReductionOperator',
+              'getitem:DiagonalOperator', 'getitem:ProductSpaceOperator[i,j]', 'getitem:ProductSpaceOperator[i]',
+              'SimpleFunctional', 'ScalingOperator.inverse']
 
 
 EXPECTED_BRANCHES = ['model/' + b for b in [
@@ -2776,7 +3035,8 @@ EXPECTED_BRANCHES = ['model/' + b for b in [
     ['wrap:' + w for w in WRAPS] + ['translate-of-linear-under-wrap:' + w for w in WRAPS]] + [
     'oracle/functional-part/' + b for b in ['linquad', 'linpert', 'zerofun', 'translate', 'scalarsum', 'rvec',
                                             'lscal', 'rscal', 'sum', 'quot', 'prod', 'opcomp']] + [
-    'oracle/linear-flag-checked'] + [
+    'oracle/linear-flag-checked', 'oracle/out-form/derivative(x)', 'oracle/out-form/op'] + [
+    'oracle/zoo/' + c for c in ROUND5_ZOO] + [
     'model/shared/' + b for b in ['sum', 'pprod', 'comp', 'bcast', 'reduce', 'diag', 'pso',
                                   'bcast/power-constructor', 'reduce/power-constructor',
                                   'diag/power-constructor', 'sum/nonlinear', 'comp/nonlinear',
@@ -2853,6 +3113,9 @@ def replay(ctx, case):
         return '; '.join(problems) if problems else None
     if kind == 'leaf':
         _, _, problems = run_leaf_case(case)
+        return '; '.join(problems) if problems else None
+    if kind == 'lin':
+        _, _, problems = run_lin_case(case)
         return '; '.join(problems) if problems else None
     if kind == 'leafcomp':
         c = dict(case)
